@@ -17,3 +17,4 @@ open PgmVerif
 #print axioms PgmVerif.C04_scalar_ops
 #print axioms PgmVerif.C04_scalar_neutral
 #print axioms PgmVerif.C04_normalize_scale
+#print axioms PgmVerif.C04_divide_product_cancel
